@@ -20,7 +20,7 @@ META = {
 RULE = ("case = document whose entry keys, string keys and field keys come from small pools; all assignments for <= n templated items "
         "(exhaustive) + random grammar derivations; non-trivial = at least one key collision of either kind; distinct = distinct text")
 ASSUMPTIONS = ["entries and strings have separate key spaces", "an entry with repeated field keys does not register its key (statement)"]
-MIN = {"structure_split": (10000, 200000), "structure_parse_string": (10000, 200000), "dupkey_wrapper": (5000, 100000), "dupfield_wrapper": (3000, 50000), "structure_parse_string_copy_stack": (3000, 60000)}
+MIN = {"structure_split": (10000, 200000), "structure_parse_string": (10000, 200000), "dupkey_wrapper": (5000, 100000), "dupfield_wrapper": (3000, 50000), "structure_parse_string_copy_stack": (3000, 60000), "structure_split_into_existing_library": (3000, 60000)}
 
 FIELDSETS = [[], ["t"], ["t", "u"], ["t", "t"], ["t", "u", "t"], ["t", "T"], ["u", "u", "u"]]
 KEYS = ["a", "b"]
@@ -168,6 +168,18 @@ def compare(lib, items, ctx, api, values, copied=False):
     return None
 
 
+def into_existing(text, cut):
+    import bibtexparser
+    from bibtexparser.splitter import Splitter
+
+    def run():
+        lib = Splitter(text[:cut]).split()
+        if cut % 2:
+            return Splitter(text[cut:]).split(library=lib)
+        return bibtexparser.parse_string(text[cut:], parse_stack=[], library=lib)
+    return sp.escape(run)
+
+
 def parse_copy_stack(text):
     """parse_string with the default stack built in copy mode (allow_inplace_modification=False)."""
     import bibtexparser
@@ -187,6 +199,10 @@ def check(case, ctx):
     apis = [("split", sp.split, True), ("parse_string", sp.parse_default, False)]
     if ctx.cases % 3 == 0:
         apis.append(("parse_string_copy_stack", parse_copy_stack, False))
+    if ctx.cases % 3 == 1 and len(items) >= 2:
+        # the document arrives in two pieces, the second parsed INTO the library of the first (library= argument)
+        cut = items[(ctx.cases // 3) % (len(items) - 1) + 1]["start"]
+        apis.append(("split_into_existing_library", lambda t: into_existing(t, cut), True))
     for api, fn, values in apis:
         st, lib = fn(text)
         ctx.ran()
